@@ -144,6 +144,9 @@ type observation struct {
 // receives; output goes to a discarded stdout). Set per scenario by its body.
 var debugClients = false
 
+// bindPort: the clients of the scenario bind a fixed local port (0 = ephemeral). Set by the body.
+var bindPort uint16 = 0
+
 func client(path string) uhppote.IUHPPOTE {
 	devices := []uhppote.Device{}
 	switch path {
@@ -153,7 +156,11 @@ func client(path string) uhppote.IUHPPOTE {
 		devices = append(devices, uhppote.Device{DeviceID: serial, Address: types.ControllerAddrFrom(netip.MustParseAddr("192.168.1.100"), 60000), Protocol: "tcp"})
 	}
 	// an explicit broadcast address: the default one is C06's business
-	return uhppote.NewUHPPOTE(types.BindAddr{}, types.BroadcastAddrFrom(netip.MustParseAddr("192.168.1.255"), 60000), types.ListenAddr{}, T, devices, debugClients)
+	bind := types.BindAddr{}
+	if bindPort != 0 {
+		bind = types.BindAddrFrom(netip.MustParseAddr("0.0.0.0"), bindPort)
+	}
+	return uhppote.NewUHPPOTE(bind, types.BroadcastAddrFrom(netip.MustParseAddr("192.168.1.255"), 60000), types.ListenAddr{}, T, devices, debugClients)
 }
 
 func scenario(op *spec.Op, path string, maxLen int) e1.Scenario {
@@ -174,6 +181,10 @@ func scenarioX(op *spec.Op, path string, maxLen int, lengths bool) e1.Scenario {
 }
 
 func scenarioY(op *spec.Op, path string, maxLen int, lengths bool, burst bool) e1.Scenario {
+	return scenarioZ(op, path, maxLen, lengths, burst, 0)
+}
+
+func scenarioZ(op *spec.Op, path string, maxLen int, lengths bool, burst bool, port uint16) e1.Scenario {
 	var o *observation
 	args := ops.EchoArgs(op, ops.BaselineReply(op))
 	name := fmt.Sprintf("%s/%s/len<=%d", op.Name, path, maxLen)
@@ -183,6 +194,7 @@ func scenarioY(op *spec.Op, path string, maxLen int, lengths bool, burst bool) e
 
 	body := func() {
 		debugClients = burst || lengths
+		bindPort = port
 		o = &observation{}
 		cur := o
 		ctrl := &farm.Controller{Addr: ctrlAddr}
@@ -347,6 +359,14 @@ func main() {
 			scenarios = append(scenarios, burstScenario(spec.OpByName(name), path, 3))
 		}
 	}
+	// the same sequences through a client with a fixed bind port (the driver takes another branch)
+	for _, name := range []string{"GetStatus", "GetCardByID", "PutCard"} {
+		for _, path := range []string{"broadcast", "udp", "tcp"} {
+			sc := scenarioZ(spec.OpByName(name), path, 3, false, false, 60001)
+			sc.Name += "/bind=60001"
+			scenarios = append(scenarios, sc)
+		}
+	}
 	sweep := []string{"GetStatus"}
 	if r.Thorough() {
 		sweep = []string{"GetStatus", "GetCardByID", "PutCard", "GetTimeProfile", "GetEvent"}
@@ -365,7 +385,7 @@ func main() {
 	if r.Worker == "" && r.Replay == "" {
 		e1.Conformance(r)
 	}
-	r.Rule("for each of the 31 directed operations x {broadcast, connected UDP, TCP}: every sequence of datagram classes " + fmt.Sprint(classNames[1:nRegular]) + fmt.Sprintf(" up to length %d (%d for GetStatus, GetCardByID, PutCard), chosen datagram by datagram by the environment, arriving 0.1 T apart (and, for those three operations, every sequence up to length 3 arriving in one instant on the two UDP paths, through a client built with debug = true, as is the client of the length sweep); for GetStatus (thorough: 5 operations) x 3 paths a first datagram of every length 0..1100 but 64 (well-formed 64-byte prefix) followed by a well-formed one;", short, long) + " distinct = distinct (sequence, outcome-kind) labels observed")
+	r.Rule("for each of the 31 directed operations x {broadcast, connected UDP, TCP}: every sequence of datagram classes " + fmt.Sprint(classNames[1:nRegular]) + fmt.Sprintf(" up to length %d (%d for GetStatus, GetCardByID, PutCard), chosen datagram by datagram by the environment, arriving 0.1 T apart (and, for those three operations, every sequence up to length 3 arriving in one instant on the two UDP paths, through a client built with debug = true, as is the client of the length sweep); for those three operations every sequence up to length 3 also through a client with a fixed bind port; for GetStatus (thorough: 5 operations) x 3 paths a first datagram of every length 0..1100 but 64 (well-formed 64-byte prefix) followed by a well-formed one;", short, long) + " distinct = distinct (sequence, outcome-kind) labels observed")
 	r.Assume("simulated network vs/net.go models UDP/TCP delivery, deadlines and buffer truncation; its fidelity is validated on the loopback by the E3 replays where registered")
 	r.Assume("reference acceptor and decoder in /verif/spec")
 	r.Finish()
